@@ -160,6 +160,37 @@ class SArr:
             else:
                 self._set(idx, dim + 1, base + k * stride, val, g)
 
+def _abs(x):
+    if is_fp(x):
+        return z3.fpAbs(x)
+    if is_sym(x):
+        return z3.If(x >= 0, x, -x)
+    return abs(x)
+
+
+def _minmax(kind):
+    def f(*a):
+        if len(a) == 1 and isinstance(a[0], (list, tuple)):
+            a = tuple(a[0])
+        r = a[0]
+        for y in a[1:]:
+            if is_fp(r) or is_fp(y):
+                r2, y2 = fp_promote(r, y)
+                c = z3.fpLT(y2, r2) if kind == "min" else z3.fpGT(y2, r2)
+                r = z3.If(c, y2, r2)
+            elif is_sym(r) or is_sym(y):
+                c = (y < r) if kind == "min" else (y > r)
+                r = ite(c, y, r)
+            else:
+                r = min(r, y) if kind == "min" else max(r, y)
+        return r
+    return f
+
+
+BUILTINS = {"abs": _abs, "min": _minmax("min"), "max": _minmax("max"), "len": lambda x: x.shape[0] if isinstance(x, SArr) else len(x),
+            "int": lambda x: x, "float": lambda x: x, "bool": lambda x: x, "True": True, "False": False}
+
+
 class Interp:
     def __init__(self, fn_src, globs, solver=None):
         self.tree = ast.parse(textwrap.dedent(fn_src)).body[0]
@@ -198,7 +229,12 @@ class Interp:
             return env[n.id]
         if n.id in self.globs:
             return self.globs[n.id]
-        raise NameError(n.id)
+        if n.id in BUILTINS:
+            return BUILTINS[n.id]
+        mod = getattr(self, "module_globals", None) or {}
+        if n.id in mod and isinstance(mod[n.id], (int, float, bool)):
+            return mod[n.id]          # numeric module-level constants are read from the real module
+        raise Unsupported(f"name {n.id}")
     def ev_Attribute(self, n, env):
         v = self.ev(n.value, env)
         if isinstance(v, SArr) and n.attr == "shape":
@@ -278,6 +314,7 @@ class Interp:
         env = dict(args)
         fr = {"ret": False}
         self.block(self.tree.body, env, True, fr, None)
+        self.retval = fr.get("val")
         return env
 
     def block(self, stmts, env, guard, fr, loop):
@@ -388,6 +425,9 @@ class Interp:
             loop["cont"] = z3.simplify(z3.Or(zbool(loop["cont"]), zbool(guard)))
             return
         if t == "Return":
+            if s.value is not None:
+                val = self.ev(s.value, env)
+                fr["val"] = val if "val" not in fr else ite(guard, val, fr["val"])
             fr["ret"] = z3.simplify(z3.Or(zbool(fr["ret"]), zbool(guard)))
             return
         raise Unsupported(t)
